@@ -38,16 +38,14 @@ EXEMPT: dict[tuple[str, str], str] = {
     ("RenderContext.get_item_async", "next(itertools.islice(obj.items(), 1))"): "guarded by `isinstance(obj, Mapping) and obj`: the mapping is non-empty",
     ("Path.head", "self.path[0]"): "a Path always has a root segment (constructed from a PathToken / WORD)",
     ("_analyze_variables", "var.segments[0]"): "segments of a Path always include the root",
-    ("_build_block_stacks", "assert base"): "called from ExtendsNode.render with the template that contains this extends node: the first walk step returns its parent or raises",
-    ("_build_block_stacks_async", "assert base"): "same as the sync twin",
     ("CallNode.macro_args", "assert expr is not None"): "zip_longest(fillvalue=None): name and expr cannot both be None",
     ("CallNode.render_to_output_async", "assert isinstance(macro, Macro)"): "tag_namespace['macros'] holds Macro objects only; the Undefined default was handled by the is_undefined branch",
     ("TranslateTag.parse", "assert message_block"): "validate_message_block returns None only for a None block; the singular block is never None",
     ("to_liquid_string", "assert isinstance(val, str)"): "every branch above assigns a str (or escape() result, a str subclass)",
     ("_to_liquid_string", "assert isinstance(val, str)"): "every branch above assigns a str (or escape() result, a str subclass)",
+    ("LoopExpression._to_iter", "len(obj)"): "the `isinstance(obj, range)` branch above returns or raises LiquidTypeError: at this point obj is a Sequence that is not a range (lists, tuples, strings: len() cannot overflow)",
     ("LoopExpression._slice", "assert isinstance(offset, int)"): "offset was produced by _to_int or is the 'continue' sentinel handled above",
     ("Unit.__call__", "assert isinstance(_length, str)"): "guarded by the membership test against three string constants just above",
-    ("LambdaExpression.parse", "assert token.type_ == TokenType.LPAREN"): "callers dispatch on LPAREN before calling parse",
     ("parse_infix_expression", "assert token is not None"): "TokenStream.next never returns None (returns the EOI token)",
     ("Lexer.accept_range", "assert is_token_type(rparen, TokenType.RPAREN)"): "C02.R4: the only call site sits under `kind == 'RPAREN'` right after the token was appended to the list that is passed",
     ("Lexer.accept_path", "self.path_stack.pop()"): "accept_path appends a PathToken before its loop and this pop sits in the else branch of `len(self.path_stack) == 1`: at least two entries",
@@ -239,7 +237,7 @@ def run(prog: Program, res: Result) -> None:  # noqa: PLR0912, PLR0915
             res.ok("C02.R4", f"{f.file}:{c.lineno} {f.qualname}", what, "non-empty, guarded by the token kind")
 
     # ------------------------------------------------------------------ R3 boundary converters
-    res.rule("C02.R3", "Filter.evaluate[_async] wraps the dynamic filter call in a handler converting (TypeError, ValueError, ArithmeticError, LookupError) to LiquidTypeError; render_with_context converts stray LiquidInterrupts")
+    res.rule("C02.R3", "Filter.evaluate[_async] wraps the dynamic filter call in a handler converting (TypeError, ValueError, ArithmeticError, LookupError, AttributeError) to LiquidTypeError; render_with_context converts stray LiquidInterrupts")
     flt = prog.mod("liquid2/builtin/expressions.py").classes.get("Filter")
     if flt is None:
         raise AnalysisError("Filter class vanished")
@@ -258,7 +256,7 @@ def run(prog: Program, res: Result) -> None:  # noqa: PLR0912, PLR0915
                     if any(isinstance(r, ast.Raise) and r.exc is not None and "LiquidTypeError" in norm(r.exc) for r in ast.walk(h)):
                         caught |= set(cls)
                         converts = True
-                need = (TypeError, ValueError, ArithmeticError, LookupError)
+                need = (TypeError, ValueError, ArithmeticError, LookupError, AttributeError)
                 missing = [n.__name__ for n in need if not any(issubclass(n, c) for c in caught)]
                 ok = converts and not missing
                 why = "converted: " + ", ".join(sorted(c.__name__ for c in caught)) if ok else f"not converted: {missing}"
